@@ -11,6 +11,10 @@ theorem rtab_agrees : Pm.Dev2.rtab = rtab := by decide
 theorem rtab_ge_one : ∀ x ∈ rtab, 1 ≤ x := by decide
 theorem nScripts_agrees : Pm.Dev2.nScripts = NUM_SCRIPTS := by decide
 theorem maxMatchPos_agrees : Pm.SpecCheck.MAX_MATCH_POS = MAX_MATCH_POS := by decide
+/-- `client.c:_next_cli_id`: client ids are handed out 1, 2, 3, … and start again at 1 after `INT_MAX`.  The model's id counter is
+    an unbounded `Nat`: it is the code's counter for every history with fewer than 2^31 − 1 accepted connections (`C11_ids*` are
+    statements about those; what happens at the wrap is finding F17). -/
+theorem cliIdWrap_is_int_max : CLI_ID_WRAP = 2147483647 := by decide
 theorem login_ping_agree : Pm.Dev2.LOG_IN = PM_LOG_IN ∧ PM_PING = 6 := by decide
 
 /-- `_get_all_script` / `_get_ranged_script` as mirrored in `Pm.Daemon` -/
